@@ -4,6 +4,7 @@ import (
 	"pgregory.net/rapid"
 
 	"github.com/tink-crypto/tink-go/v2/keyderivation/prfbasedkeyderivation"
+	"github.com/tink-crypto/tink-go/v2/verifharness/internal/gen"
 )
 
 // PRF-based key derivation.
@@ -19,7 +20,18 @@ import (
 //     restricts them to usable ones);
 //   - FailsAt "factory": PRF = HmacPrf / AesCmacPrf, or an HkdfPrf that is itself not usable;
 //   - FailsAt "use": derived type without deriver (AesCtrHmacAead, AesGcmSiv, ChaCha20Poly1305,
-//     XAesGcm, AesCmac, AesCmacPrf): keyderivation.New succeeds, DeriveKeyset fails.
+//     XAesGcm, AesCmac, AesCmacPrf, and - one non-usable draw in twenty - any of the remaining key
+//     types of AllTypes(): every asymmetric and JWT type, AesCtrHmacStreaming, PrfBasedDeriver
+//     itself): keyderivation.New succeeds, DeriveKeyset fails.
+//
+// Serialization of such keys: the key format embeds the serialized derived-key parameters, so
+//
+//   - NoSerialization when SerializeParameters refuses the derived parameters (AES-GCM with a
+//     non-standard IV / tag size, also inside a nested deriver);
+//   - Lossy when the derived parameters are JWT parameters with kid strategy CUSTOM (also inside a
+//     nested deriver): their template is the template of IGNORED-kid parameters (known finding
+//     C12 jwt-custom-kid-parameters-lossy:*), so SerializeKey and ParseKey succeed and the parsed
+//     deriver key is NOT Equal to the original.
 
 var (
 	derivableTypes    = []string{"AesGcm", "XChaCha20Poly1305", "AesSiv", "Hmac", "HkdfPrf", "HmacPrf", "Ed25519", "AesGcmHkdfStreaming"}
@@ -44,15 +56,68 @@ func drawDeriver(t *rapid.T, label string, usableOnly bool) (builder, string, ui
 	prfUsable := usableOnly || rapid.IntRange(0, 9).Draw(t, label+"_prf_usable") != 0
 	s.prf = drawType(t, label+"_prf", prfType, prfUsable)
 	derivedType := ""
-	if !usableOnly && rapid.IntRange(0, 19).Draw(t, label+"_derived_kind") == 0 {
+	derivedKind := -1
+	if !usableOnly {
+		derivedKind = rapid.IntRange(0, 19).Draw(t, label+"_derived_kind")
+	}
+	switch derivedKind {
+	case 0:
 		derivedType = rapid.SampledFrom(nonDerivableTypes).Draw(t, label+"_derived_type")
-	} else {
+	case 1: // every other key type: NewParameters accepts ANY derived-key parameters
+		derivedType = gen.Pick(t, label+"_derived_type", otherDerivedTypes())
+	default:
 		derivedType = rapid.SampledFrom(derivableTypes).Draw(t, label+"_derived_type")
 	}
 	// DrawUsable also restricts the derived-key parameters to usable ones, so that the keys of the
 	// derived keyset work (and the deriver's key format is serializable).
 	s.derived = drawType(t, label+"_derived", derivedType, usableOnly)
 	return s.build, s.derived.Variant, s.derived.ID
+}
+
+// otherDerivedTypes: AllTypes() without the fourteen types of the two lists above.
+func otherDerivedTypes() []string {
+	var out []string
+	for _, typ := range AllTypes() {
+		listed := false
+		for _, l := range derivableTypes {
+			listed = listed || l == typ
+		}
+		for _, l := range nonDerivableTypes {
+			listed = listed || l == typ
+		}
+		if !listed {
+			out = append(out, typ)
+		}
+	}
+	return out
+}
+
+// DrawDeriverOfDerivable draws a WORKING PrfBasedDeriver key (usable HKDF PRF, derived type among the
+// eight types with a key deriver; with derivedUsable false among the four of them that have such
+// combinations) whose derived-key parameters are ANY parameters the derived type's
+// constructor accepts when derivedUsable is false - including those whose keys no primitive accepts
+// (AES-GCM key size 24 or IV 13, AES-SIV 32, HKDF-PRF key 16, ...).  keyderivation.New and
+// DeriveKeyset work for all of them; Fields["derived_usable"] says whether the derived keys do.
+// NoSerialization is possible (AES-GCM IV / tag).  Streaming parameters with the too-large segment
+// size are replaced by usable ones (the derived key would have to be marked "never use").
+func DrawDeriverOfDerivable(t *rapid.T, label string, derivedUsable bool) *Info {
+	var s deriverSpec
+	s.prf = drawType(t, label+"_prf", "HkdfPrf", true)
+	types := derivableTypes
+	if !derivedUsable {
+		// the derivable types that HAVE parameter combinations no primitive accepts
+		types = []string{"AesGcm", "AesSiv", "HkdfPrf", "AesGcmHkdfStreaming"}
+	}
+	derivedType := gen.Pick(t, label+"_derived_type", types)
+	s.derived = drawType(t, label+"_derived", derivedType, derivedUsable)
+	if s.derived.FailsAt == FailsTooLarge {
+		s.derived = drawType(t, label+"_derived_alt", derivedType, true)
+	}
+	info, err := s.build(s.derived.Variant, s.derived.ID)
+	if err != nil {
+		t.Fatalf("keys: building a deriver of %s failed: %v", s.derived.Desc, err)
+	}
+	return info
 }
 
 func (s deriverSpec) build(variant string, id uint32) (*Info, error) {
@@ -75,7 +140,10 @@ func (s deriverSpec) build(variant string, id uint32) (*Info, error) {
 	i.Key = k
 	// SerializeKey embeds the serialized derived-key parameters: it fails when those cannot be
 	// serialized (AES-GCM with non-standard IV / tag size; RSA-PSS is not a derived type).
-	i.NoSerialization = derived.NoSerialization
+	i.NoSerialization = derived.NoSerialization && derived.Type != "RsaSsaPss"
+	if ks, _ := derived.Fields["kid_strategy"].(string); ks == KIDCustom || derived.Lossy {
+		i.Lossy = true
+	}
 	derivable := false
 	for _, d := range derivableTypes {
 		derivable = derivable || d == derived.Type
@@ -94,6 +162,6 @@ func (s deriverSpec) build(variant string, id uint32) (*Info, error) {
 		}
 	}
 	f := i.Fields
-	f["prf_type"], f["prf"], f["derived_type"], f["derived"] = s.prf.Type, s.prf.Fields, derived.Type, df
+	f["prf_type"], f["prf"], f["derived_type"], f["derived"], f["derived_usable"] = s.prf.Type, s.prf.Fields, derived.Type, df, derived.Usable
 	return i.done(s.build), nil
 }
